@@ -635,7 +635,7 @@ fn history<Ty: EdgeType + Flip, Ix: IndexType>(cx: &mut Cx, rng: &mut Rng, ixnam
                 mutated = false;
             }
             14 => {
-                if n >= 2 {
+                if n >= 2 && !cx.skips("index_twice_mut") {
                     let (a, b) = (rng.below(n), rng.below(n));
                     let (w1, w2) = (st.m.fresh_w(), st.m.fresh_w());
                     cx.log(|| format!("#{} index_twice_mut({}, {})", step, a, b));
